@@ -55,6 +55,7 @@ class SubstituteInterpretation(Interpretation):
         super().__init__("subs")
         self.subs = subs
         self.base_interpretation = base_interpretation
+        self.fresh = None  # fresh names of the node being rebuilt, see substitute()
         assert isinstance(subs, tuple)
         assert all(isinstance(v, Funsor) for k, v in subs)
 
@@ -65,7 +66,13 @@ class SubstituteInterpretation(Interpretation):
     def interpret(self, cls, *args):
         with self.base_interpretation:
             expr = cls(*args)
-            fresh_subs = tuple((k, v) for k, v in self.subs if k in expr.fresh)
+            # Only names that were fresh in the original node are substituted here;
+            # names introduced by substituted values must not be substituted again.
+            fresh_subs = tuple(
+                (k, v)
+                for k, v in self.subs
+                if k in expr.fresh and (self.fresh is None or k in self.fresh)
+            )
             if fresh_subs:
                 expr = instrument.debug_logged(expr.eager_subs)(fresh_subs)
             if instrument.PROFILE:
@@ -90,8 +97,9 @@ def substitute(expr, subs):
 
     env = interpreter.anf(expr, stop)
 
-    with SubstituteInterpretation(subs, interpreter.get_interpretation()):
+    with SubstituteInterpretation(subs, interpreter.get_interpretation()) as interp:
         for key, value in env.items():
+            interp.fresh = value.fresh if isinstance(value, Funsor) else None
             args = tuple(
                 c if interpreter.is_atom(c) else env.get(c, c)
                 for c in interpreter.children(value)
